@@ -345,6 +345,17 @@ def run_impl_parallel(script, payloads, hashseed=0, timeout=1800):
 # --------------------------------------------------------------------------
 # known findings
 
+def shard_dbs(items, per_db, nproc=None, min_dbs_per_proc=3):
+    """Group generated cases into databases of [per_db] cases and databases into per-process shards such that every
+    process handles several databases in turn (fresh database, same rowids, different content): state that survives
+    between calls inside one process (module-level caches keyed by rowid) then shows up as a disagreement."""
+    nproc = nproc or NPROC
+    per_db = max(1, min(per_db, max(1, len(items) // (nproc * min_dbs_per_proc))))
+    dbs = [items[i:i + per_db] for i in range(0, len(items), per_db)]
+    nsh = max(1, min(nproc, len(dbs) // min_dbs_per_proc))
+    return [s for s in (dbs[i::nsh] for i in range(nsh)) if s]
+
+
 def load_known():
     path = os.path.join(VERIF, 'known_findings.json')
     if not os.path.exists(path):
